@@ -452,9 +452,9 @@ func (a *aggCount) result([]any) (any, error) { return a.n, nil }
 
 // sum: UInt* -> UInt64, Int* -> Int64 (both wrapping), Float -> Float64.
 type aggSum struct {
-	kind   byte // 0 unknown, 'u', 'i', 'f'
-	u      uint64
-	f      float64
+	kind byte // 0 unknown, 'u', 'i', 'f'
+	u    uint64
+	f    float64
 }
 
 func numClass(v any) (byte, error) {
